@@ -19,6 +19,8 @@ pub(crate) struct AcceptSnap {
     pub sock_backoff: Vec<bool>,
     /// the back-off deadline of the socket has passed (virtual clock) but is still set
     pub sock_expired: Vec<bool>,
+    /// per socket: milliseconds until its back-off deadline (-1: no deadline; 0: passed)
+    pub sock_remain_ms: Vec<i64>,
 }
 
 impl Stepped {
@@ -77,6 +79,11 @@ impl Stepped {
                 .sockets
                 .iter()
                 .map(|s| s.timeout.map(|t| Instant::now() >= t).unwrap_or(false))
+                .collect(),
+            sock_remain_ms: self
+                .sockets
+                .iter()
+                .map(|s| s.timeout.map(|t| t.saturating_duration_since(Instant::now()).as_millis() as i64).unwrap_or(-1))
                 .collect(),
         }
     }
